@@ -1233,7 +1233,13 @@ namespace bloch::runtime {
             m_currentClassCtx = cls;
             slot = defaultValueForField(field, cls->name);
             if (field.hasInitializer && field.initializer) {
-                slot = eval(field.initializer);
+                // A static initialiser may run lazily in the middle of some function (first use
+                // of a generic specialisation): it must not see that function's locals.
+                FrameBaseGuard frame(m_frameBase, m_env.size());
+                beginScope();
+                Value v = eval(field.initializer);
+                endScope();
+                cls->staticStorage[i] = v;
             }
             m_inStaticContext = prevStatic;
             m_currentClassCtx = prevClass;
